@@ -749,6 +749,94 @@ def is_symbolic(x) -> bool:
 
 
 # --------------------------------------------------------------------------- specials
+class CInf:
+    """A complex value with an infinite part whose other part is an unspecified finite number:
+    the result of <finite symbolic complex> + (inf+0j) and friends.  numpy.isinf is True, numpy.isnan
+    False.  Only the operations the circuit code applies to such values are modelled."""
+    _sx_symbolic = True
+    npy = True
+
+    def __repr__(self):
+        return "<CInf>"
+
+    __str__ = __repr__
+
+    def __format__(self, spec):
+        return "<CInf>"
+
+    def _fin(self, o):
+        v = SVal.lift(o)
+        if v is None:
+            if isinstance(o, CInf):
+                return None
+            if _nonfinite(o) and not (isinstance(o, (float, _np.floating)) and math.isnan(o)) \
+                    and not (isinstance(o, (complex, _np.complexfloating)) and (math.isnan(o.real) or math.isnan(o.imag))):
+                return None
+            raise SxUnsupported("CInf combined with nan")
+        return v
+
+    def __add__(self, o):
+        # every CInf stands for (+inf) + (finite)j: it only arises from <finite> + (inf+0j)
+        if isinstance(o, CInf):
+            return self
+        if self._fin(o) is None:
+            oc = complex(o)
+            if oc.real == math.inf and math.isfinite(oc.imag):
+                return self
+            raise SxUnsupported("inf + inf of unknown signs")
+        return self
+
+    __radd__ = __add__
+
+    def __sub__(self, o):
+        if self._fin(o) is None:
+            raise SxUnsupported("inf - inf")
+        return self
+
+    def __rsub__(self, o):
+        raise SxUnsupported("x - inf")
+
+    def __mul__(self, o):
+        v = self._fin(o)
+        if v is None:
+            raise SxUnsupported("inf * inf")
+        if v._decide_zero():
+            return _np.complex128(complex(math.nan, math.nan))
+        raise SxUnsupported("inf * finite complex (the parts of the product depend on signs)")
+
+    __rmul__ = __mul__
+
+    def __rtruediv__(self, o):
+        v = self._fin(o)
+        if v is None:
+            raise SxUnsupported("inf / inf")
+        return SVal(ZERO, npy=True)
+
+    def __truediv__(self, o):
+        raise SxUnsupported("inf / x")
+
+    def __eq__(self, o):
+        return False
+
+    def __ne__(self, o):
+        return True
+
+    def __hash__(self):
+        return id(self)
+
+    def __bool__(self):
+        return True
+
+    def astype(self, dtype):
+        return self
+
+    @property
+    def real(self):
+        raise SxUnsupported("real part of an unspecified infinity")
+
+    imag = real
+
+
 def _div_by_zero(num: SVal, npy: bool, complex_: bool):
     if not npy:
         raise ZeroDivisionError("division by zero")
@@ -768,10 +856,15 @@ def _special(a: SVal, o, op: str, reflected: bool):
     if isinstance(o, (complex, _np.complexfloating)) or not a.is_real():
         if isinstance(o, (float, _np.floating)) and math.isnan(o):
             return _np.complex128(complex(math.nan, math.nan))
-        if op in ("add", "sub") and a.is_real() is False and isinstance(o, (float, _np.floating)):
-            # complex finite +/- real inf
-            sign = -1.0 if (op == "sub" and not reflected) else 1.0
-            return _np.complex128(complex(sign * o, 0.0)) + 0  # imaginary part stays symbolic -> unsupported
+        oc = complex(o)
+        if math.isnan(oc.real) or math.isnan(oc.imag):
+            if op in ("add", "sub"):
+                raise SxUnsupported("arithmetic between a symbolic number and a non-finite complex (nan part)")
+            raise SxUnsupported("arithmetic between a symbolic number and a non-finite complex")
+        if op == "add" and oc.real == math.inf and math.isfinite(oc.imag):
+            return CInf()
+        if op == "div" and not reflected:
+            return SVal(ZERO, npy=True)      # finite / inf
         raise SxUnsupported("arithmetic between a symbolic number and a non-finite complex")
     o = float(o)
     if math.isnan(o):
